@@ -210,8 +210,9 @@ def build (cfg : Cfg) : TyDef → String → Res Ty
       if v.kind = .map then .err else
       match build cfg k "", build cfg v "" with
       | .ok kc, .ok vc =>
-          -- `isProtoSlice(valueCodec)`: an entry holds one value field, the repeated form writes one per element
-          if vc.isProtoSlice then .err else .ok (.map kc vc (tag == "proto"))
+          -- `isProtoSlice(valueCodec) || isProtoSlice(keyCodec)`: an entry holds one key and one value field,
+          -- the repeated form writes one per element
+          if vc.isProtoSlice || kc.isProtoSlice then .err else .ok (.map kc vc (tag == "proto"))
       | .ok _, e => e
       | e, _ => e
   | .struct name fs, tag =>
@@ -247,8 +248,9 @@ def buildNamed (cfg : Cfg) (n : String) : TyDef → String → Res Ty
       if v.kind = .map then .err else
       match build cfg k "", build cfg v "" with
       | .ok kc, .ok vc =>
-          -- `isProtoSlice(valueCodec)`: an entry holds one value field, the repeated form writes one per element
-          if vc.isProtoSlice then .err else .ok (.map kc vc (tag == "proto"))
+          -- `isProtoSlice(valueCodec) || isProtoSlice(keyCodec)`: an entry holds one key and one value field,
+          -- the repeated form writes one per element
+          if vc.isProtoSlice || kc.isProtoSlice then .err else .ok (.map kc vc (tag == "proto"))
       | .ok _, e => e
       | e, _ => e
   | .struct _ fs, _ =>
